@@ -129,6 +129,17 @@ CHECKS['C05'] = dict(
          'objects, namespace maps, histories longer than 3; date/time variable immutability is bug-hunting only.',
     technique='SMT-based symbolic execution (CrossHair/z3) of enumerated binding programs over 3-step histories with symbolic values',
     design='DESIGN.md §4 C05')
+CHECKS['C18'] = dict(
+    text='One generated condition per (carrier, sequence type): `$v instance of T`, match_sequence_type and `$v treat as T` (value '
+         'returned unchanged or XPDY0050) on sequences of symbolic length 0..3 with symbolic payloads, against an independent '
+         'reference matcher, for 41 types x integer carrier (quick) and x string/boolean carriers (thorough). The subtype relation is '
+         'proved sound (match(V,S) and S<=T implies match(V,T)) for all 41x41 pairs on symbolic integer and string sequences, and '
+         'reflexive/transitive on the enumerated set. 23 built-in functions are called with symbolic arguments and their results '
+         'matched against the registered return type.',
+    note='Trusted: CrossHair models; the reference type table in harness/c18.py. Types are enumerated, values symbolic. Out: schema '
+         'types, kind tests with arguments, node values, deep function tests, map(K,V)/array(T) tests.',
+    technique='SMT-based symbolic execution (CrossHair/z3), one generated condition per (carrier, type); z3 over the subtype table',
+    design='DESIGN.md §4 C18')
 NOT_APPLICABLE = {
     'C04': 'Quantifies over program syntax and hash seeds: no value domain to make symbolic; symbolic source text does not get through '
            'the tokenizer regex under CrossHair (600 CPU-s, len<=2, no verdict); a table-level z3 check would verify a model of the '
